@@ -39,15 +39,15 @@ PROP = {
                   "whether 'processed' covers safe browsing / parental / safe search / invalid; ASCII search terms "
                   "holding a partial 'xn--' label; negative limit/offset (200 or 400 accepted). Not covered: ignored "
                   "hosts and per-client ignore flags at read time (C08), lines of 16 KiB and more (C20), the 50000-line "
-                  "scan limit of unfiltered cursor reads, concurrent readers/writers (C05), host names with bytes that "
-                  "JSON escapes.",
+                  "scan limit of unfiltered cursor reads, concurrent readers/writers (C05), host names holding a quote or a "
+                  "backslash.",
     "tests": [
         ("TestVFC07History", (80, 500), {"steps": 30}),
         ("TestVFC07Layout", (80, 500)),
         ("TestVFC07Params", (300, 3000)),
         ("TestVFC07StoredLine", (1500, 20000)),
     ],
-    "plain": ["TestVFC07RegressCursor", "TestVFC07RegressBounds"],
+    "plain": ["TestVFC07RegressCursor", "TestVFC07RegressBounds", "TestVFC07RegressEscaped"],
     "shards": (4, 16),
     "workers": (4, 16),
     "timeout": (900, 3600),
